@@ -164,7 +164,9 @@ ObsProbe(o, n, r) == IF r # "ok" /\ n \in DOMAIN o.b /\ n \in Range(o.pool) /\ ~
 Names(items) == [i \in DOMAIN items |-> items[i].name]
 
 \* op \in {add, remove, strategy}; items = /v1/backends right after the operation returned
-ObsAdmin(o, op, name, w, s, status, pre, items) ==
+\* badAddr: the address of an add does not parse (the only legitimate reasons to refuse an add are that and a name
+\* that is already configured)
+ObsAdmin(o, op, name, w, s, status, pre, items, badAddr) ==
   LET names == Range(Names(items))
       Static(x) == [name |-> x.name, addr |-> x.addr, w |-> x.w]
       okAdd == op = "add" /\ status = 201
@@ -178,6 +180,8 @@ ObsAdmin(o, op, name, w, s, status, pre, items) ==
       \* a strategy switch keeps exactly the same backends with their weights and health
       vSt == IF okSt /\ {items[i] : i \in DOMAIN items} # {pre[i] : i \in DOMAIN pre}
              THEN <<V("C11", "StrategyPreserves", s)>> ELSE <<>>
+      vRefused == IF op = "add" /\ status >= 400 /\ ~badAddr /\ name \notin Range(Names(pre))
+                  THEN <<V("C11", "ValidAddRefused", name)>> ELSE <<>>
       vOther == IF (okAdd \/ okRm) /\
                    {x \in {items[i] : i \in DOMAIN items} : x.name # name} # {x \in {pre[i] : i \in DOMAIN pre} : x.name # name}
                 THEN <<V("C11", "OtherBackendsChanged", name)>> ELSE <<>>
@@ -196,7 +200,7 @@ ObsAdmin(o, op, name, w, s, status, pre, items) ==
                                       !.orderKnown = FALSE, !.amap = {}])
               [] okSt -> Changed([o1 EXCEPT !.strategy = s, !.amap = {}])
               [] OTHER -> o1
-  IN [o2 EXCEPT !.viol = vAdd \o vRm \o vFail \o vSt \o vOther]
+  IN [o2 EXCEPT !.viol = vAdd \o vRm \o vFail \o vSt \o vOther \o vRefused]
 
 \* a plain listing (no operation): remember it
 ObsList(o, items) == [Q(o) EXCEPT !.lastItems = items]
